@@ -23,7 +23,7 @@ class C06(Check):
     rule = ("program set = corpus (fixtures + feature programs) + control-flow skeleton space (chains of <= D nested constructs from "
             "{if, if/else(then|else), while, for, try, catch, lambda} x 8 terminal actions x {0,1,2} locals per level x 6 stack-perturbing "
             "prefixes x {0,1,3} parameters; D=2 quick, 3 thorough) + opcode-prefix space (one statement per stack-affecting construct of the language - 47 of them, "
-            "covering every instruction the compiler emits inside a method - singly x {before, inside} a try x 4 raise kinds, and all ordered pairs) + boundary programs + hook-call failures (9 callback-running natives x 6 callbacks (wrong arity, raising, fine) x 0-6 locals x 4 recursion depths: the VM-raised error at every fill level of the stack); per function: exhaustive abstract exploration; "
+            "covering every instruction the compiler emits inside a method - singly x {before, inside} a try x 4 raise kinds, and all ordered pairs) + boundary programs + hook-call failures (9 callback-running natives x 6 callbacks (wrong arity, raising, fine) x 0-6 locals x 4 recursion depths: the VM-raised error at every fill level of the stack) + nested hook method calls (print/str/interpolation/assertEq of lists, maps, tuples and user objects nested 0-5 deep, from the module level, a function and a launched fiber); per function: exhaustive abstract exploration; "
             "non-trivial = function with at least one branch or handler")
     assumptions = ["stack effects and operand layouts in vlib/bcv.py are written independently of the compiler's stack_effect table; opcode numbering is read from the real ByteCode enum",
                    "the property's 'exactly one value at each return' is checked as: depth >= frame base + 1 and no live handler (the number of locals in scope is not recoverable from bytecode)",
@@ -44,6 +44,8 @@ class C06(Check):
             yield ("bound", name, src)
         for spec in hookerr():
             yield spec
+        for spec in strchain():
+            yield spec
 
     def describe(self, spec):
         if spec[0] == "corpus":
@@ -52,7 +54,7 @@ class C06(Check):
             return "ctl %s" % (spec[1],)
         if spec[0] == "opc":
             return "opcode-prefix %s: %s" % (spec[1], " ".join(spaces.OPCODE_PREFIXES[i] for i in spec[1][0])[:200])
-        return "%s %s" % (spec[0] if spec[0] == "hookerr" else "bound", spec[1])
+        return "%s %s" % (spec[0] if spec[0] in ("hookerr", "strchain") else "bound", spec[1])
 
     def build(self, spec):
         base = {"dump": True, "trace": True, "step_limit": 1500000}
@@ -137,6 +139,28 @@ def hookerr():
                     body = "let xs = [10]; %s try { %s } catch e { return 'caught ' + e.cls().name(); } return 'no error';" % (pads, tmpl % cb)
                     src = ("fn two(a, b) { return a; } class K { init(a, b) { self.a = a; } }\nfn at(d) { if d > 0 { let here = d; return at(d - 1); } %s }\nprint(at(%d));\nprint('done');\n" % (body, depth))
                     out.append(("hookerr", "%s/%s/pad%d/depth%d" % (nname, bname, pad, depth), src))
+    return out
+
+
+def strchain():
+    """natives that call methods through the hook, nested (print -> List.str -> item.str -> ...), started from frames whose stack is still exactly
+    as large as the compiler computed: the module's top level, a function, the first function of a launched fiber, an imported module"""
+    out = []
+
+    def nestv(kind, d):
+        v = {"list": "[1]", "map": "{'k': 1}", "tuple": "(1, 2)", "user": "U(1)", "str": "'s'"}[kind]
+        for _ in range(d):
+            v = {"list": "[%s]", "map": "{'k': %s}", "tuple": "(%s, 0)", "user": "U(%s)", "str": "[%s]"}[kind] % v
+        return v
+    pre = "class U { init(v) { self.v = v; } str() { return 'U<' + self.v.str() + '>'; } }\n"
+    for kind in ("list", "map", "tuple", "user", "str"):
+        for d in (0, 1, 2, 3, 5):
+            v = nestv(kind, d)
+            for use in ("print(%s);", "let s = %s.str(); print(s.len() > 0);", "print('i${%s}j');", "print(%s, %s);", "assertEq(%s.str(), %s.str()); print('eq');", "let m = %s.str; print(m().len() > 0);"):
+                stmt = use.replace("%s", v)
+                out.append(("strchain", "module/%s/%d/%s" % (kind, d, use[:12]), pre + stmt + "\nprint('done');\n"))
+                out.append(("strchain", "fn/%s/%d/%s" % (kind, d, use[:12]), pre + "fn f() { %s }\nf();\nprint('done');\n" % stmt))
+                out.append(("strchain", "fiber/%s/%d/%s" % (kind, d, use[:12]), pre + "let c = chan(1);\nfn w(c) { %s c <- 1; }\nlaunch w(c);\nprint(<- c);\n" % stmt))
     return out
 
 
